@@ -8,7 +8,9 @@
 package main
 
 import (
+	"bytes"
 	"context"
+	"encoding/binary"
 	"fmt"
 	"io"
 	"log"
@@ -22,6 +24,7 @@ import (
 	"github.com/gopcua/opcua/server"
 	"github.com/gopcua/opcua/ua"
 	"github.com/gopcua/opcua/uapolicy"
+	"github.com/gopcua/opcua/uasc"
 
 	"verifharness/internal/h"
 )
@@ -243,10 +246,125 @@ func (e *env) connect(c cfg, srv *running, val int32) (res string, detail string
 	if got, ok := rd.Results[0].Value.Value().(int32); !ok || got != val {
 		return "fail:read-value", fmt.Sprintf("wrote %d, read %v", val, rd.Results[0].Value.Value())
 	}
+	if c.auth == "username" && c.cbits > 0 {
+		if r, d := e.password(c, cl, ep); r != "ok" {
+			return r, d
+		}
+	}
 	if err := cl.Close(ctx); err != nil {
 		return "fail:close", err.Error()
 	}
 	return "ok", ""
+}
+
+const testPassword = "p@ss-wörd/"
+
+// password: the client's password encryption for the advertised token policy,
+// decrypted the way a conforming server would (the bundled server ignores the
+// user identity token), and its length compared with the model.
+func (e *env) password(c cfg, cl *opcua.Client, ep *ua.EndpointDescription) (string, string) {
+	pw := strings.Repeat(testPassword, 70)
+	nonce := e.rnd.Bytes(32)
+	tokPol := ""
+	for _, t := range ep.UserIdentityTokens {
+		if t.TokenType == ua.UserTokenTypeUserName {
+			tokPol = t.SecurityPolicyURI
+			break
+		}
+	}
+	ct, _, err := cl.SecureChannel().EncryptUserPassword(tokPol, pw, ep.ServerCertificate, nonce)
+	if err != nil {
+		return "fail:password-encrypt", err.Error()
+	}
+	line := fmt.Sprintf("pwlen %s %d %d", short(tokPol), c.sbits, len(pw))
+	e.r.Count(line, true)
+	e.r.Hit("pwlen")
+	e.r.Compare(e.d, line, fmt.Sprint(len(ct)))
+	sk, err1 := h.LoadKey(e.o.Keys, c.sbits, "b")
+	ck, err2 := h.LoadKey(e.o.Keys, c.cbits, "a")
+	if err1 != nil || err2 != nil {
+		return "infra", fmt.Sprint(err1, err2)
+	}
+	srvAlgo, err := uapolicy.Asymmetric(tokPol, sk.Key, &ck.Key.PublicKey)
+	if err != nil {
+		return "fail:password-server-keys", err.Error()
+	}
+	pt, err := srvAlgo.Decrypt(ct)
+	if err != nil {
+		return "fail:password-decrypt", err.Error()
+	}
+	want := binary.LittleEndian.AppendUint32(nil, uint32(len(pw)+len(nonce)))
+	want = append(append(want, pw...), nonce...)
+	if !bytes.Equal(pt, want) {
+		return "fail:password-content", fmt.Sprintf("decrypted %d bytes, want %d", len(pt), len(want))
+	}
+	return "ok", ""
+}
+
+// opnLen secures a real OpenSecureChannel request and response with the real
+// signAndEncrypt (hooks) and reports "<reqLen> <reqSizeField> <respLen> <respSizeField>".
+func (e *env) opnLen(c cfg) string {
+	uri := ua.SecurityPolicyURIPrefix + c.pol
+	var ckey, skey *h.KeyPair
+	var err error
+	if c.cbits > 0 {
+		if ckey, err = h.LoadKey(e.o.Keys, c.cbits, "a"); err != nil {
+			return "infra " + err.Error()
+		}
+	}
+	if c.sbits > 0 {
+		if skey, err = h.LoadKey(e.o.Keys, c.sbits, "b"); err != nil {
+			return "infra " + err.Error()
+		}
+	}
+	one := func(local, remote *h.KeyPair, svc interface{}, typeID uint16) (int, int, error) {
+		var inst *uasc.VerifInstance
+		var err error
+		if c.mode == ua.MessageSecurityModeNone {
+			var cert []byte
+			if local != nil {
+				cert = local.CertDER
+			}
+			inst, err = uasc.VerifNewAsymmetricInstance(uri, c.mode, nil, nil, cert, nil)
+		} else {
+			inst, err = uasc.VerifNewAsymmetricInstance(uri, c.mode, local.Key, &remote.Key.PublicKey, local.CertDER, uapolicy.Thumbprint(remote.CertDER))
+		}
+		if err != nil {
+			return 0, 0, err
+		}
+		m := inst.NewMessage(svc, typeID, 1)
+		chunks, err := m.EncodeChunks(1 << 16)
+		if err != nil {
+			return 0, 0, err
+		}
+		if len(chunks) != 1 {
+			return 0, 0, fmt.Errorf("OPN split into %d chunks", len(chunks))
+		}
+		out, err := inst.SignAndEncrypt(m, chunks[0])
+		if err != nil {
+			return 0, 0, err
+		}
+		return len(out), int(binary.LittleEndian.Uint32(out[4:8])), nil
+	}
+	a, _ := uapolicy.Asymmetric(uri, nil, nil)
+	nonce := make([]byte, a.NonceLength())
+	req := &ua.OpenSecureChannelRequest{
+		RequestHeader: &ua.RequestHeader{AuthenticationToken: ua.NewTwoByteNodeID(0), Timestamp: time.Now(), RequestHandle: 1, TimeoutHint: 10000},
+		RequestType:   ua.SecurityTokenRequestTypeIssue, SecurityMode: c.mode, ClientNonce: nonce, RequestedLifetime: 3600000}
+	resp := &ua.OpenSecureChannelResponse{
+		ResponseHeader: &ua.ResponseHeader{Timestamp: time.Now(), RequestHandle: 1, ServiceDiagnostics: &ua.DiagnosticInfo{},
+			StringTable: []string{}, AdditionalHeader: ua.NewExtensionObject(nil)},
+		SecurityToken: &ua.ChannelSecurityToken{ChannelID: 1, TokenID: 1, CreatedAt: time.Now(), RevisedLifetime: 3600000},
+		ServerNonce:   nonce}
+	l1, s1, err := one(ckey, skey, req, id.OpenSecureChannelRequest_Encoding_DefaultBinary)
+	if err != nil {
+		return "err " + err.Error()
+	}
+	l2, s2, err := one(skey, ckey, resp, id.OpenSecureChannelResponse_Encoding_DefaultBinary)
+	if err != nil {
+		return "err " + err.Error()
+	}
+	return fmt.Sprintf("%d %d %d %d", l1, s1, l2, s2)
 }
 
 func (e *env) runConfigs(cs []cfg) {
@@ -286,6 +404,17 @@ func (e *env) runConfigs(cs []cfg) {
 			e.r.Hit("result:" + res)
 			e.r.Compare(e.d, line, res)
 			e.r.Sample(line + " -> " + res)
+			if c.auth == "anonymous" {
+				ol := fmt.Sprintf("opnlen %s %d %d %d", c.pol, c.mode, c.cbits, c.sbits)
+				got := e.opnLen(c)
+				e.r.Count(ol, true)
+				e.r.Hit("opnlen")
+				e.r.Compare(e.d, ol, got)
+				f := strings.Fields(got)
+				if len(f) != 4 || f[0] != f[1] || f[2] != f[3] {
+					e.r.Fail(ol, "", "secured OPN chunk: MessageSize field differs from the chunk length, or securing failed: "+got)
+				}
+			}
 			// ---- oracle: every configuration of the table interoperates
 			if res != "ok" {
 				e.r.Fail(line, "", "real client and real server do not interoperate: "+res+": "+detail)
@@ -346,6 +475,22 @@ func main() {
 			if i%3 == pick || !seen[k] {
 				sel = append(sel, c)
 				seen[k] = true
+			}
+		}
+	}
+	if o.Replay == "" {
+		// corpus rows (past failures / extremes) always run
+		have := map[string]bool{}
+		for _, c := range sel {
+			have[c.String()] = true
+		}
+		for _, l := range o.CorpusLines() {
+			k := strings.TrimPrefix(l, "connect ")
+			for _, c := range all {
+				if c.String() == k && !have[k] {
+					sel = append(sel, c)
+					have[k] = true
+				}
 			}
 		}
 	}
